@@ -7,6 +7,7 @@ CONSTANTS MaxLinks = 2
  Damage = 0
  Clamp = TRUE
  Trim = TRUE
+ SearchFrom = "dataoffset"
 INVARIANT OpenSucceeds
 INVARIANT LinkTableIsTheTruth
 CHECK_DEADLOCK FALSE
